@@ -517,6 +517,76 @@ class Gen(object):
 # --------------------------------------------------------------------------
 # random values (in the value form of the Python codecs)
 
+def over_targets(spec, ty, seen=None):
+    """Nodes (OCTET STRING / SEQUENCE OF with a variable size) whose length
+    field can express more than the maximum: the decoder has to check there."""
+    out = []
+    t = spec.resolve(ty)
+    k = t.kind
+    if k in ('octets', 'seqof') and t.lo != t.hi:
+        span = t.hi - t.lo
+        if (1 << span.bit_length()) - 1 > span:
+            out.append(t)
+    if k == 'seq':
+        for m in t.members:
+            out += over_targets(spec, m.ty)
+    elif k == 'seqof':
+        if t.hi > 0:
+            out += over_targets(spec, t.elem)
+    elif k == 'choice':
+        for _, a in t.alts:
+            out += over_targets(spec, a)
+    return out
+
+
+def contains_node(spec, ty, target):
+    t = spec.resolve(ty)
+    if t is target:
+        return True
+    k = t.kind
+    if k == 'seq':
+        return any(contains_node(spec, m.ty, target) for m in t.members)
+    if k == 'seqof':
+        return t.hi > 0 and contains_node(spec, t.elem, target)
+    if k == 'choice':
+        return any(contains_node(spec, a, target) for _, a in t.alts)
+    return False
+
+
+def gen_over_value(spec, ty, rng, target):
+    """A value that is valid except that [target] gets a length above its
+    maximum which the length field can still express (the Python encoder does
+    not check constraints, so it produces the bytes a hostile peer would send)."""
+    t = spec.resolve(ty)
+    k = t.kind
+    if t is target:
+        span = t.hi - t.lo
+        n = rng.randint(t.hi + 1, t.lo + (1 << span.bit_length()) - 1)
+        if k == 'octets':
+            return bytes(rng.randrange(256) for _ in range(n))
+        return [gen_value(spec, t.elem, rng, 'lo') for _ in range(n)]
+    if k == 'seq':
+        d = {}
+        for m in t.members:
+            if contains_node(spec, m.ty, target):
+                d[m.name] = gen_over_value(spec, m.ty, rng, target)
+                target = None if False else target
+            elif m.optional or m.has_default:
+                if rng.random() < .5:
+                    d[m.name] = gen_value(spec, m.ty, rng)
+            else:
+                d[m.name] = gen_value(spec, m.ty, rng)
+        return d
+    if k == 'seqof':
+        n = max(t.lo, 1)
+        return [gen_over_value(spec, t.elem, rng, target)] + [gen_value(spec, t.elem, rng) for _ in range(n - 1)]
+    if k == 'choice':
+        c = [(n, a) for n, a in t.alts if contains_node(spec, a, target)]
+        n, a = rng.choice(c)
+        return (n, gen_over_value(spec, a, rng, target))
+    return gen_value(spec, ty, rng)
+
+
 def gen_value(spec, ty, rng, edge=None, budget=None):
     """edge: None (random), 'lo', 'hi'.  budget: one-element list with the
     number of leaves still allowed (keeps the generated fill code small); once
